@@ -110,6 +110,11 @@ var respHeaderPalette = [][]hdrKV{
 	{{"Cache-Control", "max-age=60"}, {"Vary", "Accept"}},
 	{{"ETag", "\"abc\""}},
 	{{"Location", "/elsewhere?x=1"}},
+	// absolute locations, also ones that name a backend's own address: what the backend says is
+	// what the client is told (rewriting redirects is a feature nobody configured)
+	{{"Location", "http://10.20.0.1:80/next"}},
+	{{"Location", "http://10.20.0.2:80/a/b?c=d"}},
+	{{"Location", "https://other.example/landing"}},
 	{{"X-Odd-cAsE", "1"}},
 	{{"Server", "backend/1.0"}},
 	{{"Date", "Mon, 01 Jan 2024 00:00:00 GMT"}},
